@@ -7,7 +7,8 @@
      borrow / borrow_mut), and the guard is still held when the function returns.
   W  Reference::{clone, borrow, borrow_mut} delegate to the ReferenceUnsafe functions on the private payload.
   M  exported-macro hygiene: no cfg(feature = ..) inside the transcriber of a #[macro_export] macro (it is evaluated
-     in the calling crate).  Today: to_dyn! has three -> known finding D4.
+     in the calling crate).  to_dyn! had three (defect D4, repaired in a2bc2f4); silent today.
+  D  variant-set dataflow over the MIR of a downstream crate that expands to_dyn! (witness/todyn), see to_dyn_expansion.
 """
 import re
 from values import *
@@ -465,5 +466,5 @@ def run(chk):
     chk.extra["std_models"] = sorted(sim.stats["models_used"])
     return ("Per-variant abstract interpretation of the Reference implementation: clone preserves variant and payload identity with a refcount bump, "
             "borrow/borrow_mut take and return the guard of the matching lock on the payload's target; token-level hygiene rule on exported macros "
-            "(to_dyn!'s cfg(feature) attributes are the known finding D4). The concurrency clause (no lost update for all schedules) is not decided "
+            "(D4, to_dyn!'s cfg(feature) attributes, was found by this rule and repaired); the expansion of to_dyn! in a downstream crate is analysed from MIR (variant-set dataflow, four builds). The concurrency clause (no lost update for all schedules) is not decided "
             "beyond 'the std lock is taken and held'.")
